@@ -51,7 +51,7 @@ def build(tier, seed):
                 continue  # > 300 s per harness (float miter); thorough tier only
             if tier == "thorough" and d > 3:
                 continue
-            dom = "tiny" if tier == "quick" else "small"
+            dom = "tiny" if (tier == "quick" or (t["base"] == "Aminstar" and d >= 3)) else "small"   # A-Min* d3 on |s|<=127: > 1800 s
             txt = "s/8, s in [-7,7]" if dom == "tiny" else "s/8, s in [-127,127]"
             items.append((Harness("c05_lay_%s_d%d" % (n, d), {"type": n, "degree": d, "input": "domain %s; SURROGATE math on both sides" % txt}, 3.0 + d, stubs="SURROGATE", neighbourhood=True),
                           "crate::c05_layered_f!(c05_lay_%s_d%d, %s, %s, crate::macros::any_%s_%s, %d, %d);" % (n, d, n, f, f, dom, d, d + 3)))
